@@ -1389,6 +1389,29 @@ func (in *inliner) processStmt(s ast.Stmt, file *ast.File, depth int) []ast.Stmt
 		return out
 	}
 	var pre []ast.Stmt
+	// `if v := f(); cond {` / `switch v := f(); tag {` with an inlinable f: move the init statement
+	// into an enclosing block (same scoping), where the ordinary statement rules apply
+	{
+		var init ast.Stmt
+		switch x := s.(type) {
+		case *ast.IfStmt:
+			init = x.Init
+		case *ast.SwitchStmt:
+			init = x.Init
+		}
+		if as, ok := init.(*ast.AssignStmt); ok && len(as.Rhs) == 1 {
+			if ce := asCall(as.Rhs[0]); ce != nil && in.targetOf(ce) != nil {
+				switch x := s.(type) {
+				case *ast.IfStmt:
+					x.Init = nil
+				case *ast.SwitchStmt:
+					x.Init = nil
+				}
+				blk := &ast.BlockStmt{List: []ast.Stmt{as, s}}
+				return in.processStmt(blk, file, depth)
+			}
+		}
+	}
 	switch x := s.(type) {
 	case *ast.ExprStmt:
 		if ce := asCall(x.X); ce != nil {
